@@ -392,7 +392,23 @@ func run(c *harness.Ctx, i int) {
 			}
 			s, e := desync.NewS3Store(b.s3.URL(b.prefix), fakes.Creds(), fakes.Region, o, fakes.Lookup)
 			dsu.Must(e)
-			err = s.Prune(context.Background(), keep)
+			pctx, pcancel := context.WithCancel(context.Background())
+			if rng.Intn(4) == 0 {
+				// the bucket lists a few keys per request and the prune is cancelled while a later page is served:
+				// it reports the interruption or has finished its work, it does not report success over what is left
+				b.s3.PageSize = 1 + rng.Intn(5)
+				at := 2 + rng.Intn(3)
+				b.s3.OnList = func(page int) {
+					if page == at {
+						pcancel()
+						time.Sleep(2 * time.Millisecond)
+					}
+				}
+				refKind += "+refused-by-cancel"
+			}
+			err = s.Prune(pctx, keep)
+			pcancel()
+			b.s3.PageSize, b.s3.OnList = 0, nil
 			b.s3.RefuseDelete = nil
 			if b.s3.Refused > 0 {
 				c.Count("s3_deletes_refused", int64(b.s3.Refused))
